@@ -313,12 +313,19 @@ pub fn as_field_name(xml_name: &str) -> String {
 /// be written as a raw identifier.
 pub fn as_type_name(xml_name: &str) -> String {
     let type_name = to_pascal_case(xml_name);
-    if type_name == "Self" { "Self_".to_string() } else { type_name }
+    match type_name.as_str() {
+        "Self" => "Self_".to_string(),
+        // a name made of separators only, such as `_`
+        "" => "Unnamed".to_string(),
+        _ => type_name,
+    }
 }
 
 /// renamed the Rust keyword and quote the field name
 pub fn rename_keywords(field_name: &str) -> &str {
     match field_name {
+        // a name made of separators only, such as `_`
+        "" => "unnamed",
         // these can not be raw identifiers
         "self" => "self_",
         "super" => "super_",
